@@ -68,7 +68,7 @@ class Unit:
         return weave.strip_attrs(self.src.find_const(mod, name)).strip()
 
     def real_fn(self, mod, impl, name, contract, *, vis=None, tail=None, ghost=(), invariants=None,
-                before_returns=None, ret='ret', rename=None, body_edit=None, subst=()):
+                before_returns=None, ret='ret', rename=None, body_edit=None, subst=(), sig_edit=None):
         """emit the real function with `contract` woven in. ghost: list of (anchor_re, text, where, occurrence)."""
         sig, body = self.slice_fn(mod, impl, name)
         for a, b in subst:     # R6: associated types / trait paths -> the unit's concrete names
@@ -76,6 +76,8 @@ class Unit:
                 self.rewrites['R6'] = self.rewrites.get('R6', 0) + sig.count(a) + body.count(a)
             sig = sig.replace(a, b)
             body = body.replace(a, b)
+        if sig_edit:
+            sig = sig_edit(sig)
         sig, named = weave.name_ret(sig, ret)
         if named:
             self.rewrites['R7'] = self.rewrites.get('R7', 0) + 1
